@@ -12,6 +12,7 @@ import (
 	"path/filepath"
 	"sort"
 	"strings"
+	"sync"
 	"time"
 )
 
@@ -147,7 +148,7 @@ type sessGen struct {
 }
 
 func newSessGen(env *Env, r *WNode) *sessGen {
-	g := &sessGen{env: env, root: r, nfrag: env.Rnd.Intn(13)}
+	g := &sessGen{env: env, root: r, nfrag: env.Rnd.Intn(14)}
 	r.Walk(func(rel string, x *WNode) {
 		if rel == "" {
 			g.dirs = append(g.dirs, "/")
@@ -270,6 +271,9 @@ func (g *sessGen) readArgs(sizeHint int) (uint32, uint64) {
 		off = uint64(r.Int63n(int64(sizeHint)*2 + 10))
 	case 5:
 		off = 1<<63 + uint64(r.Intn(5)) // negative as int64
+		if r.Intn(2) == 0 { // around what the filesystem can address (ext4: 2^44 - 4096), and far beyond
+			off = []uint64{1<<44 - 4097, 1<<44 - 4096, 1<<44 - 4095, 1 << 44, 1 << 50, 1<<63 - 1, 1 << 43}[r.Intn(7)]
+		}
 	default:
 		off = uint64(r.Int63n(int64(sizeHint) + 1))
 	}
@@ -302,7 +306,12 @@ func (g *sessGen) fragment(withCD bool) []*Req {
 	newName := []string{"UP", "new", "n1", "n2"}[r.Intn(4)]
 	badCreates := []string{dir + "/nodir/x", "/***DVD***/" + strings.TrimPrefix(dir, "/") + "/x", g.pick(g.files) + "/x", "/" + strings.Repeat("L", 300), dir}
 	g.nfrag++
-	switch g.nfrag % 13 {
+	switch g.nfrag % 14 {
+	case 13: // CLOSEFILE closes the read file and nothing else: the open directory and the upload go on
+		f := g.pick(g.files)
+		d := g.pick(g.dirs)
+		return []*Req{{Op: opOpenDir, Path: d}, {Op: opReadDirEntry}, {Op: opCreateFile, Path: dir + "/" + newName}, payload(), {Op: opOpenFile, Path: f}, {Op: opReadFile, N: 64, Off: 0},
+			{Op: opOpenFile, Path: "/CLOSEFILE"}, {Op: opReadDirEntry}, payload(), {Op: opReadDir}, {Op: opStatFile, Path: dir + "/" + newName}, {Op: opOpenFile, Path: "/CLOSEFILE"}, {Op: opReadDirEntryV2}}
 	case 0: // upload in several writes
 		out := []*Req{{Op: opCreateFile, Path: dir + "/" + newName}}
 		for k := 0; k < 1+r.Intn(3); k++ {
@@ -622,6 +631,15 @@ func walkTree(root string) map[string]byte {
 	return t
 }
 
+var fsLimitOnce sync.Once
+var fsLimitVal int64
+
+// fsLimit: the largest offset lseek accepts on the filesystem of the worlds (measured once; the model's fs_max_offset)
+func fsLimit() int64 {
+	fsLimitOnce.Do(func() { fsLimitVal = fsMaxOffset() })
+	return fsLimitVal
+}
+
 func canon(p string) string { return filepath.Clean("/" + p) }
 
 func be64(b []byte) int64 { return int64(binary.BigEndian.Uint64(b)) }
@@ -718,6 +736,12 @@ func checkStep(env *Env, id string, top string, allow bool, st *oracleState, q *
 		if int64(q.Off) < 0 {
 			if len(out) != 0 || !so.closed {
 				fail("C02-read", "negative offset must end the connection")
+			}
+			return
+		}
+		if int64(q.Off) > fsLimit() { // beyond what the filesystem can address: lseek refuses, the connection ends; never data
+			if len(out) != 0 && !(q.Op == opReadFile && len(out) == 4 && bytes.Equal(out, make([]byte, 4))) {
+				fail("C02-read", "offset %d is beyond the largest offset of the filesystem (%d): %d bytes were sent", q.Off, fsLimit(), len(out))
 			}
 			return
 		}
